@@ -205,7 +205,7 @@ func (ex *Exec) safe(st *State, cond Term, instr ssa.Instruction, what string) {
 		return
 	}
 	if ex.safety && ex.disc == nil {
-		ex.oblige(st, "safety", what+" @ "+ex.srcLine(instr), []string{"C14"}, cond, what)
+		ex.oblige(st, "safety", what+" @ "+ex.srcLine(instr), ex.safetyProps(), cond, what)
 	}
 	st.Assume(cond)
 }
@@ -261,7 +261,7 @@ func (ex *Exec) run(st *State, frID int, b *ssa.BasicBlock, idx int, prev *ssa.B
 		case *ssa.Panic:
 			if ex.disc == nil {
 				if ex.safety {
-					ex.oblige(st, "safety", "explicit panic @ "+ex.srcLine(in), []string{"C14"}, False, "explicit panic reachable")
+					ex.oblige(st, "safety", "explicit panic @ "+ex.srcLine(in), ex.safetyProps(), False, "explicit panic reachable")
 				}
 			}
 			return
@@ -494,7 +494,11 @@ func (ex *Exec) step(st *State, fr *Frame, instr ssa.Instruction, prev *ssa.Basi
 		ex.rangeNext(st, fr, in)
 	case *ssa.Send:
 		ch, _ := ex.val(st, fr, in.Chan).(Term)
-		ex.chanSend(st, ch, ex.val(st, fr, in.X), in.X.Type(), in, true)
+		sv := ex.val(st, fr, in.X)
+		if g, md, ok := ex.chanInv(st, in.Chan, sv, in.X.Type()); ok && ex.disc == nil {
+			ex.oblige(st, "chan-invariant", chanFieldKey(in.Chan), nil, g, md.Src)
+		}
+		ex.chanSend(st, ch, sv, in.X.Type(), in, true)
 	case *ssa.Go:
 		ex.goStmt(st, fr, in)
 	case *ssa.Defer:
@@ -561,7 +565,14 @@ func (ex *Exec) unop(st *State, fr *Frame, in *ssa.UnOp) Val {
 		return App(SInt, "gbvnot"+fmt.Sprint(intBits(in.Type())), x.(Term))
 	case token.ARROW:
 		ch, _ := x.(Term)
-		return ex.chanRecv(st, ch, in.X.Type().Underlying().(*types.Chan).Elem(), in.CommaOk, in)
+		et := in.X.Type().Underlying().(*types.Chan).Elem()
+		rv := ex.chanRecv(st, ch, et, in.CommaOk, in)
+		if !in.CommaOk {
+			if g, _, ok := ex.chanInv(st, in.X, rv, et); ok {
+				st.Assume(g)
+			}
+		}
+		return rv
 	}
 	ex.unsupported("unary operator %s", in.Op)
 	return ex.symbolic(st, "unop", in.Type())
@@ -1174,4 +1185,18 @@ func structEscapes(a *ssa.Alloc) bool {
 	esc := a.Heap || check(a)
 	escapeCache.Store(a, esc)
 	return esc
+}
+
+// safetyProps: panic-freedom obligations belong to C14 and to every property the function serves
+// (a postcondition says nothing about executions that panic).
+func (ex *Exec) safetyProps() []string {
+	ps := []string{"C14"}
+	if ex.contract != nil {
+		for _, p := range ex.contract.Props {
+			if p != "C14" {
+				ps = append(ps, p)
+			}
+		}
+	}
+	return ps
 }
